@@ -1,6 +1,7 @@
 """Instrumented items, sources, callables, locks and context managers."""
 from __future__ import annotations
 
+import collections.abc
 import functools
 from typing import Any, List, Optional
 
@@ -773,7 +774,16 @@ async def _async_gen(st: SrcState):
         raise
 
 
-FLAVOURS_SYNC = ("list", "tuple", "getitem_seq", "sync_iter", "sync_gen", "sync_iterable", "tuple_sub", "list_sub", "sync_mapping")
+class SyncSequence(SyncIterable, collections.abc.Sequence):
+    """A lazily produced collection that is also a ``collections.abc.Sequence`` (a page-backed record list): tools walk
+    it once, through its iterator, like their counterparts - random access is there for the user, not for them."""
+
+    def __getitem__(self, index: Any) -> Any:
+        CTX.foreign.append(f"the sequence {self.st.sid} was indexed ({index!r}) instead of being iterated")
+        return self.st.items[index]
+
+
+FLAVOURS_SYNC = ("list", "tuple", "getitem_seq", "sync_iter", "sync_gen", "sync_iterable", "tuple_sub", "list_sub", "sync_mapping", "sync_sequence")
 FLAVOURS_ASYNC = ("async_gen", "async_class", "async_class_bare", "async_class_full", "async_class_asend",
                   "async_class_future", "async_class_proxy", "async_class_lazy", "async_iterable", "async_class_lateclose", "async_class_delegating", "async_class_plainnext", "async_class_eagerstart", "async_class_bare_full", "async_class_sized", "async_class_aiter_once", "async_class_awaitable", "async_class_athrow", "async_class_closejob")
 FLAVOURS = FLAVOURS_SYNC + FLAVOURS_ASYNC
@@ -919,6 +929,8 @@ def make_source(st: SrcState, flavour: str) -> Any:
         return AsyncIterable(st)
     if flavour == "sync_iterable":
         return SyncIterable(st)
+    if flavour == "sync_sequence":
+        return SyncSequence(st)
     raise ValueError(flavour)
 
 
